@@ -815,7 +815,7 @@ def search(ck, seeds=None):
 
 COQ_EXTRA = '''From Model Require Import PyHash Graph Morgan MorganFast Stereo Writer ChiralMorgan.
 From Model Require Import StereoRegistry.
-From Proofs Require Import WriterInvProofs WriterStereoExt StereoProofs RegistryRemapExt StereoOrderExt EnvLaws CtMapOrderExt SameStereo ChiralOrderExt.
+From Proofs Require Import WriterInvProofs WriterStereoExt StereoProofs RegistryRemapExt StereoOrderExt EnvLaws CtMapOrderExt SameStereo ChiralOrderExt ChiralReinsertExt ChiralReinsertBool.
 Import ListNotations.
 Open Scope Z_scope.
 Definition iadj_eqb (a b : iadj) : bool := list_eqb (pair_eqb Z.eqb (list_eqb (pair_eqb Z.eqb Z.eqb))) a b.
@@ -877,6 +877,31 @@ Definition cmo_ok (rings : list Z) (g : mol) (tabs : cmtabs) (ord ord2 : cmorder
 Definition cmu_is (rings : list Z) (g : mol) (tabs : cmtabs) (ord : cmorders) (flip_free : bool) : bool :=
   match cm_uniform rings g tabs ord with
   | Some (_, u) => Bool.eqb u flip_free
+  | None => true
+  end.
+(* hypotheses and conclusion of C01_chiral_morgan_two_descriptions on real molecules: g1 = the molecule rebuilt through the public
+   API in other insertion orders and mapped back to the numbers of g (registries and stored signs recomputed by the library);
+   whenever the decidable hypotheses hold (two_desc_b) the two model results must be the same dict up to item order *)
+Definition cmres_perm_b (a b : pyres (labels * list labels)) : bool :=
+  match a, b with
+  | Ok (r, t), Ok (r', t') => pperm_b r r' && list_eqb pperm_b t t'
+  | Err _, Err _ => true
+  | _, _ => false
+  end.
+Definition two_hyp (rings : list Z) (g g1 : mol) (tabs tabs1 : cmtabs) (flips : list (Z * Z)) (ord ord1 : cmorders) : option (labels * labels * bool) :=
+  match fast_atoms_order rings g, fast_atoms_order rings g1 with
+  | Ok ao, Ok ao1 => Some (ao, ao1, two_desc_b hash63 g g1 tabs tabs1 (fun p => existsb (cpair_eqb p) flips) ao ao1 ord ord1)
+  | _, _ => None
+  end.
+Definition two_ok (rings : list Z) (g g1 : mol) (tabs tabs1 : cmtabs) (flips : list (Z * Z)) (ord ord1 : cmorders) : bool :=
+  match two_hyp rings g g1 tabs tabs1 flips ord ord1 with
+  | Some (ao, ao1, true) => cmres_perm_b (chiral_morgan hash63 g tabs ao ord) (chiral_morgan hash63 g1 tabs1 ao1 ord1)
+  | _ => true
+  end.
+(* how often the hypotheses hold (counted, never an alarm) *)
+Definition two_is (rings : list Z) (g g1 : mol) (tabs tabs1 : cmtabs) (flips : list (Z * Z)) (ord ord1 : cmorders) (expected : bool) : bool :=
+  match two_hyp rings g g1 tabs tabs1 flips ord ord1 with
+  | Some (_, _, u) => Bool.eqb u expected
   | None => true
   end.
 (* hypothesis of C01_smiles_invariant_discrete_remap: the stereo registries of the remap()-ed molecule are the renamed registries,
@@ -1055,6 +1080,49 @@ class ChiralSpy:
     def __exit__(self, *a):
         self.st._morgan = self.orig
         self.st.MoleculeStereo._MoleculeStereo__differentiation = self.orig_d
+
+
+def cm_orders(m):
+    """the three stereo sets of _chiral_morgan in their iteration order (built with the same expressions as the code)"""
+    stereo_atoms = {n for n, a in m.atoms() if a.stereo is not None}
+    stereo_bonds = {n for n, mb in m._bonds.items() if any(b.stereo is not None for _, b in mb.items())}
+    atoms_stereo = stereo_atoms.intersection(m.tetrahedrons)
+    allenes_stereo = stereo_atoms - atoms_stereo
+    ctt = m._stereo_cis_trans_terminals
+    try:
+        cis_trans_stereo = {ctt[n] for n in stereo_bonds}
+    except KeyError:
+        return None
+    return list(atoms_stereo), list(cis_trans_stereo), list(allenes_stereo)
+
+
+def two_descriptions_case(spy, kk, new, fmap):
+    """kk and the rebuilt molecule mapped back to kk's numbers: Coq cases for C01_chiral_morgan_two_descriptions"""
+    inv = {v: k for k, v in fmap.items()}
+    g1 = new.copy()
+    off = max(max(g1._atoms), max(kk._atoms)) + 1
+    g1.remap({n: n + off for n in g1._atoms})
+    g1.remap({n + off: inv[n] for n in inv})
+    o0, o1 = cm_orders(kk), cm_orders(g1)
+    if o0 is None or o1 is None:
+        return None
+    flips = [p for p in o0[1] if p not in o1[1] and (p[1], p[0]) in o1[1]]
+    # the real runs: no flip-half group on the first description
+    kk.__dict__.pop('_chiral_morgan', None)
+    spy.flips = []
+    try:
+        w0 = kk._chiral_morgan
+        g1.__dict__.pop('_chiral_morgan', None)
+        w1 = g1._chiral_morgan
+    except KeyError:
+        return None
+    flip_free = not any(spy.flips)
+    ring = [n for n, a in kk.atoms() if a.in_ring]
+    ot = lambda o: f'(mkCmo {lst(o[0], zraw)} {lst(o[1], pair_term)} {lst(o[2], zraw)})'
+    head = f'{lst(ring, zraw)} {mol_term(kk)} {mol_term(g1)} {cmtabs_term(kk)} {cmtabs_term(g1)} {lst(flips, pair_term)} {ot(o0)} {ot(o1)}'
+    # the real weights agree as functions of the atom exactly when the theorem says so (search oracle on the real code)
+    same = dict(w0) == dict(w1)
+    return f'two_ok {head}', f'two_is {head} {b(flip_free)}', flip_free, same, bool(flips)
 
 
 def chiral_case(spy, m, rng=None):
@@ -1365,6 +1433,20 @@ def correspondence(ck):
                 meta.append(('same-stereo', smi, str(new)))
                 ck.case(('corr-same-stereo', smi, tuple(new._atoms)), nontrivial=True)
                 ck.count('corr:same-stereo-hypotheses')
+                td = two_descriptions_case(cspy, kk, new, fmap) if (not quick or ck.distribution.get('corr:two-descriptions', 0) < 90) else None
+                if td is not None:
+                    c2, cu2, flip_free, same, flipped = td
+                    cases.append(c2)
+                    meta.append(('two-descriptions', smi, str(new)))
+                    ck.case(('corr-two-descriptions', smi, tuple(new._atoms)), nontrivial=True)
+                    ck.count('corr:two-descriptions' + (':pair-listed-reversed' if flipped else ''))
+                    ucases.append(cu2)
+                    umeta.append((smi, 'two-descriptions', flip_free, 1 if same else 0))
+                    if flip_free and not same and not (gap_classes(kk) | gap_classes(new)):
+                        ck.counterexample(f'chiral-morgan-differs:rebuild:{smi}', '_chiral_morgan gives different weights (as a function of the atom) '
+                                          'to two descriptions of one structure although no flip-half group was needed',
+                                          {'smiles': smi, 'rebuilt': str(new), 'mapping': fmap}, {'kk': dict(kk._chiral_morgan), 'rebuilt': dict(new._chiral_morgan)},
+                                          'equal weights atom by atom', 'C01_chiral_morgan_two_descriptions (hypotheses evaluated in Coq)')
             if complete:
                 inv = {v: k for k, v in fmap.items()}
                 for n, a in kk._atoms.items():
@@ -1421,6 +1503,10 @@ def correspondence(ck):
     if uok:
         fs = set(ufail)
         for i, (smi, how, flip_free, ncalls) in enumerate(umeta):
+            if how == 'two-descriptions':
+                ck.count('corr:two-descriptions:' + (('hypotheses-established' if flip_free else 'not-uniform(flip-half)') if i not in fs
+                                                       else ('hypotheses-not-established' if flip_free else 'established-though-flip-half')))
+                continue
             if i in fs:
                 ck.count('corr:chiral-order:hypothesis-differs-from-no-flip-groups')
             elif flip_free:
